@@ -191,6 +191,17 @@ func c04RunOnce(tree *h.Tree, dstDir string, c *c04Case, f *c04Fault) *c04Run {
 					}
 				}
 			}
+		case "open":
+			// the K-th regular non-link file cannot be opened (it vanished, or may not be read)
+			n := 0
+			for _, nd := range tree.Nodes {
+				if nd.Kind == h.KFile && nd.LinkTo == "" {
+					n++
+					if n == f.K {
+						mem.OpenErr = map[string]error{nd.Path: [...]error{os.ErrNotExist, os.ErrPermission, errInjected}[f.J%3]}
+					}
+				}
+			}
 		}
 	}
 	setup := func(p *h.Pair) {
@@ -281,6 +292,13 @@ func c04RunOnce(tree *h.Tree, dstDir string, c *c04Case, f *c04Fault) *c04Run {
 	}
 	run.res = h.RunSync(src, dstDir, h.SyncOpt{Capacity: c.Capacity, Recv: opt, Setup: setup, CheckLeaks: true,
 		SetupCalls: func(cs, cr func()) { cancelSend, cancelRecv = cs, cr }})
+	if f != nil && f.Kind == "open" {
+		for _, o := range mem.Opens {
+			if _, bad := mem.OpenErr[o]; bad {
+				fire()
+			}
+		}
+	}
 	if f != nil && (f.Kind == "walk" || f.Kind == "read") {
 		// these fire inside the source: detect from the source's own counters
 		if f.Kind == "walk" && mem.WalkErrAt != 0 {
@@ -407,6 +425,7 @@ func c04Check(env *h.Env, c *c04Case) error {
 				if c.Stride > 1 && n > 3 && n%c.Stride != 0 {
 					continue
 				}
+				faults = append(faults, c04Fault{Kind: "open", K: n, J: n})
 				for _, j := range []int{0, 1, 32767, 32768, 32769, nd.Size - 1} {
 					if j >= 0 && j < nd.Size || j == 0 {
 						faults = append(faults, c04Fault{Kind: "read", K: n, J: j})
